@@ -61,7 +61,7 @@ pub fn workload(thorough: bool) -> Vec<Work> {
     let mut w = Vec::new();
     let pool = pool();
     let lays = layouts(thorough);
-    let origins = [None, Some(0x0200u16), Some(0x7FFE), Some(0xFD00)];
+    let origins = [None, Some(0x0200u16), Some(0x7FFE), Some(0xFD00), Some(0x0000)];
     let mut n = 0usize;
     for (a, sa) in &pool {
         for (b, sb) in &pool {
@@ -461,7 +461,7 @@ pub fn run(ctx: &Ctx) -> i32 {
         ctx,
         acc,
         Level { category: "model_checking", bfs: None },
-        "bounded-exhaustive enumeration: every ordered pair of 17 statement shapes (operand-less, operand-ful, every directive, multi-word, multi-byte strings, stack extension) in 3 arrangements (first statement at byte 0 / labelled with .break between / .orig in the middle), 4 origins (default, x0200, x7FFE crossing x8000, xFD00), a layout product (case, separators incl. commas, label colon, label on own line, trailing and full-line comments with multi-byte characters, indentation, .end); one debugger session per program queries `assembly` at EVERY address from origin-1 to origin+n+1 and `goto label`, `label+1`, `label-1`, `label+3` for every label; compared with the printer's statement spans and the reference symbol table; a second session in full (non-minimal) output adds a breakpoint at every statement address and one past the program and reads the source column of the `break list` table (same oracle); plus 27 single-query sessions on labels whose spelling the command language can also read as an integer or register (b1, o7, B0, x, o, b, b2, xg, r8, _1, 2nd, 9, each bare and with +1) and on a label after the 65535th word. non-trivial = sessions in which every query agreed",
+        "bounded-exhaustive enumeration: every ordered pair of 17 statement shapes (operand-less, operand-ful, every directive, multi-word, multi-byte strings, stack extension) in 3 arrangements (first statement at byte 0 / labelled with .break between / .orig in the middle), 5 origins (default, x0200, x7FFE crossing x8000, xFD00, x0000), a layout product (case, separators incl. commas, label colon, label on own line, trailing and full-line comments with multi-byte characters, indentation, .end); one debugger session per program queries `assembly` at EVERY address from origin-1 to origin+n+1 and `goto label`, `label+1`, `label-1`, `label+3` for every label; compared with the printer's statement spans and the reference symbol table; a second session in full (non-minimal) output adds a breakpoint at every statement address and one past the program and reads the source column of the `break list` table (same oracle); plus 27 single-query sessions on labels whose spelling the command language can also read as an integer or register (b1, o7, B0, x, o, b, b2, xg, r8, _1, 2nd, 9, each bare and with +1) and on a label after the 65535th word. non-trivial = sessions in which every query agreed",
         true,
         &["session-agreed", "breakpoint-table-rows-compared"],
         &["the printer records the exact byte span of each statement it emits", "minimal-mode debugger text is read through the tee hook"],
